@@ -297,3 +297,195 @@ Proof.
 Qed.
 
 End WithQ.
+
+(* ------------------------------------------------------------------ how far F = 0 carries: the drivers' regime *)
+Lemma grow_min_size_ge n : 0 <= n -> n + 3 <= grow_min_size n.
+Proof.
+  intros H. unfold grow_min_size. pose proof (round_half_even_ge (3 * (n + 2)) ltac:(lia)).
+  assert (n + 3 <= 3 * (n + 2) / 2) by (apply Z.div_le_lower_bound; lia). lia.
+Qed.
+
+(* The length of `min` at the first growth after which a flush may skip merge_all, for a buffer of capacity n <= limit
+   with |min| = mlen, iterating coo_increase_mem as the model does: the growth n -> grow_size limit n happens when
+   merge_all has left >= 0.95 * n distinct keys; none of them is ever lost, so afterwards every flush leaves
+   ind' >= ceil(0.95 * n) and is followed by merge_all as long as  grow_size limit n - ceil(0.95 * n) <= limit.
+   (fuel bounds the number of growths looked at; running out of it only gives a smaller, still valid, length) *)
+Fixpoint driver_mlen (fuel : nat) (limit n mlen : Z) : Z :=
+  match fuel with
+  | O => mlen
+  | S f => let n' := grow_size limit n in
+           let m' := grow_min_size mlen in
+           if n' <=? limit + cdiv (19 * n) 20 then driver_mlen f limit n' m' else m'
+  end.
+
+Lemma cdiv_19_20 n i : 19 * n <= 20 * i -> cdiv (19 * n) 20 <= i.
+Proof. intros H. unfold cdiv. apply Z.lt_succ_r, Z.div_lt_upper_bound; lia. Qed.
+
+Lemma zlen_keys l : zlen (keys l) = zlen l.
+Proof. unfold zlen, keys. rewrite map_length. reflexivity. Qed.
+
+Section Driver.
+Variable Q : Z * Z * Z -> Prop.
+
+(* the postcondition on the buffer geometry, with the exact sizes coo_increase_mem gives *)
+Definition grown_exact (limit : Z) (c c' : coo) (F F' : Z) : Prop :=
+  (cap c' = cap c /\ zlen (mn c') = zlen (mn c)) \/
+  (F' = F /\ cap c' = grow_size limit (cap c) /\ zlen (mn c') = grow_min_size (zlen (mn c)) /\
+   ssorted (live c') /\ 19 * cap c <= 20 * ind c').
+
+(* an un-merged flush needs more room above the distinct live keys than `limit` *)
+Definition unmerged_needs (limit : Z) (c : coo) : Prop :=
+  forall W, NoDup W -> incl W (keys (live c)) -> limit + zlen W < cap c.
+
+(* flush_tail_v with: key preservation, the exact geometry after growth, and the reason for an un-merged flush *)
+Lemma flush_tail_k limit c F E :
+  1 <= limit -> VInv Q limit c F E -> ind c <= cap c - 1 -> 20 <= cap c ->
+  4 * F + 6 < 2 ^ (zlen (mn c) - 1) ->
+  (limit <= ind c - Z.abs (nthZ (mn c) 0) \/ ind c = cap c - 1) ->
+  exists c' F',
+    flush_tail limit c = Ok c' /\ VInv Q limit c' F' E /\ ind c' <= cap c' - 2 /\ 20 <= cap c' /\
+    (forall k, sumby (live c') k = sumby (live c) k) /\ same_keys (live c') (live c) /\
+    (F' = F \/ (F' = F + 1 /\ unmerged_needs limit c)) /\
+    grown_exact limit c c' F F'.
+Proof.
+  intros Hl (HI & HF & HP) Hic Hcap HG Hwhy.
+  pose proof HI as (S0 & C0 & D0).
+  pose proof (so_ind Q c S0) as Hi0. pose proof (so_depth Q c S0) as Hd0.
+  set (a0 := Z.abs (nthZ (mn c) 0)) in *.
+  set (P := 2 ^ (zlen (mn c) - 1)) in *.
+  destruct (csd_ok Q c) as (c1 & E1 & P1); [exact S0|clear - Hic; lia|fold P; clear - C0 HG; lia|].
+  assert (K1 : same_keys (live c1) (live c)) by (apply (csd_keys Q c c1 S0); [clear - Hic; lia|exact E1]).
+  destruct P1 as (S1 & Q1 & Q2 & Q3 & Q4 & Q5 & Q6 & Q7).
+  unfold flush_tail. rewrite E1. cbn [bind].
+  pose proof (so_depth Q c1 S1) as Hd1.
+  rewrite (getZ_nthZ _ (mn c1) 0) by (clear - Hd1; lia). cbn [bind]. rewrite Q4, Q1.
+  assert (C1 : cnt (mn c1) (depth c1) <= 4 * F + 5) by (clear - C0 Q6; lia).
+  assert (D1 : depth c1 = 0 \/ 2 ^ (depth c1 - 1) <= 4 * F + 5).
+  { destruct Q7 as [Ed|[Ed Ed']].
+    - rewrite Ed. destruct D0 as [D0|D0]; [left; exact D0|right; clear - D0; lia].
+    - right. rewrite Ed. replace (depth c + 1 - 1) with (depth c) by lia. clear - Ed' C0. lia. }
+  destruct (cap c - ind c1 <=? limit) eqn:T.
+  - (* followed by merge_all: the counter is compacted *)
+    apply Z.leb_le in T.
+    destruct (ma_ok_strong Q c1) as (c2 & E2 & P2 & Hs & Hc2);
+      [exact S1|clear - Q1 Q3 Hic; lia|rewrite Q2; fold P; clear - C1 HG; lia|exact Q4|].
+    assert (K2 : same_keys (live c2) (live c)).
+    { eapply same_keys_trans; [|exact K1]. apply (ma_keys Q c1 c2 S1); [clear - Q1 Q3 Hic; lia|exact E2]. }
+    destruct P2 as (S2 & R1 & R2 & R3 & R4 & R5 & R6 & R7).
+    rewrite E2. cbn [bind].
+    assert (C2 : cnt (mn c2) (depth c2) <= 4 * (F + 1)).
+    { pose proof (pow2_npos_le_cnt (mn c1) (depth c1)) as A1. pose proof (npos_nonneg (mn c1) (depth c1)) as A2.
+      pose proof (pow2_4k (npos (mn c1) (depth c1)) F A2 HF ltac:(clear - A1 C1; lia)) as A3.
+      clear - A3 Hc2. lia. }
+    assert (D2 : depth c2 = 0 \/ 2 ^ (depth c2 - 1) <= 4 * (F + 1)).
+    { destruct R7 as [Ed|[Ed Ed']].
+      - rewrite Ed. destruct D1 as [D1|D1]; [left; exact D1|].
+        destruct (Z_lt_le_dec (depth c1) 1); [left; clear - Hd1 l; lia|right].
+        apply pow2_4k; [clear - l; lia|exact HF|clear - D1; lia].
+      - right. rewrite Ed. replace (depth c1 + 1 - 1) with (depth c1) by lia.
+        apply pow2_4k; [clear - Hd1; lia|exact HF|clear - Ed' C1; lia]. }
+    assert (I2 : Inv Q c2 (4 * (F + 1))) by (split; [exact S2|split; [exact C2|exact D2]]).
+    assert (HP2 : limit * F + 2 * ind c2 - Z.abs (nthZ (mn c2) 0) <= 2 * E)
+      by (rewrite R4; clear - HP Hi0 Q3 R3; lia).
+    assert (Hi2 : ind c2 <= cap c - 1) by (clear - R3 Q3 Hic; lia).
+    assert (K2c : cap c2 = cap c) by (rewrite R1; exact Q1).
+    assert (Z2 : zlen (mn c2) = zlen (mn c)) by (rewrite R2; exact Q2).
+    assert (U2 : forall k, sumby (live c2) k = sumby (live c) k) by (intros k; rewrite R5, Q5; reflexivity).
+    destruct (20 * ind c2 >=? 19 * cap c2) eqn:T2.
+    + rewrite Z.geb_leb in T2. apply Z.leb_le in T2.
+      destruct (grow_inv Q limit c2 (4 * (F + 1)) I2) as (I3 & G1 & G2 & G3 & G4); [rewrite K2c; clear - Hi2; lia|].
+      exists (coo_increase_mem limit c2), F. split; [reflexivity|].
+      pose proof (grow_size_bounds limit (cap c) Hcap) as [Hg1 Hg2].
+      assert (Hmz : zlen (mn (coo_increase_mem limit c2)) = Z.max (zlen (mn c2)) (grow_min_size (zlen (mn c2))))
+        by (unfold coo_increase_mem; simpl; apply zlen_extend).
+      pose proof (grow_min_size_ge (zlen (mn c)) (zlen_nonneg (mn c))) as Hgm.
+      split.
+      { split; [exact I3|]. split; [exact HF|]. rewrite G1.
+        replace (nthZ (mn (coo_increase_mem limit c2)) 0) with (nthZ (mn c2) 0)
+          by (unfold coo_increase_mem; simpl; symmetry; apply nthZ_extend0). exact HP2. }
+      unfold grown_exact. rewrite G1, G2, G4, K2c. rewrite Hmz, Z2. rewrite K2c in T2.
+      replace (Z.max (cap c) (grow_size limit (cap c))) with (grow_size limit (cap c)) by (clear - Hg1; lia).
+      replace (Z.max (zlen (mn c)) (grow_min_size (zlen (mn c)))) with (grow_min_size (zlen (mn c))) by (clear - Hgm; lia).
+      split; [clear - Hi2 Hg1; lia|]. split; [clear - Hcap Hg1; lia|]. split; [exact U2|]. split; [exact K2|].
+      split; [left; reflexivity|]. right.
+      split; [reflexivity|]. split; [reflexivity|]. split; [reflexivity|]. split; [exact Hs|exact T2].
+    + rewrite Z.geb_leb in T2. apply Z.leb_gt in T2. rewrite K2c in T2.
+      exists c2, F. split; [reflexivity|]. split; [split; [exact I2|split; [exact HF|exact HP2]]|].
+      unfold grown_exact. rewrite K2c, Z2.
+      split; [clear - T2 Hcap; lia|]. split; [exact Hcap|]. split; [exact U2|]. split; [exact K2|].
+      split; [left; reflexivity|]. left. split; reflexivity.
+  - (* not followed by merge_all: one more unit of F; ind' >= the number of distinct live keys *)
+    apply Z.leb_gt in T.
+    exists c1, (F + 1). split; [reflexivity|].
+    split.
+    { split; [split; [exact S1|split]|split].
+      - clear - C1; lia.
+      - destruct D1 as [D1|D1]; [left; exact D1|right; clear - D1; lia].
+      - clear - HF; lia.
+      - rewrite Q4. clear - Hwhy HP Hi0 Q3 T Hic. destruct Hwhy as [W|W]; lia. }
+    unfold grown_exact. rewrite Q1, Q2.
+    split; [clear - T Hl; lia|]. split; [exact Hcap|]. split; [exact Q5|]. split; [exact K1|].
+    split; [|left; split; reflexivity].
+    right. split; [reflexivity|]. intros W NW IW.
+    assert (LW : zlen W <= zlen (live c1)).
+    { apply distinct_le_live; [exact NW|]. intros k Hk. apply K1, IW, Hk. }
+    rewrite zlen_live in LW by (rewrite Q1; clear - Q3 Hic; lia). clear - LW T. lia.
+Qed.
+
+(* ------------------------------------------------------------------ coo_append *)
+Lemma coo_append_k limit c F E ev :
+  1 <= limit -> VInv Q limit c F E -> ind c <= cap c - 2 -> 20 <= cap c -> (0 <= e_key ev /\ Q (rck ev)) ->
+  4 * F + 6 < 2 ^ (zlen (mn c) - 1) ->
+  exists c' F',
+    coo_append limit c ev = Ok c' /\ VInv Q limit c' F' (E + 1) /\ ind c' <= cap c' - 2 /\ 20 <= cap c' /\
+    (forall k, sumby (live c') k = sumby (live c) k + sumby [ev] k) /\ same_keys (live c') (live c ++ [ev]) /\
+    (F' = F \/ (F' = F + 1 /\ unmerged_needs limit c)) /\ grown_exact limit c c' F F'.
+Proof.
+  intros Hl (HI & HF & HP) Hic Hcap Hev HG.
+  pose proof HI as ([Hd Hz Hch Hi Hk Hfree Hruns] & C & D).
+  pose proof (Z.abs_nonneg (nthZ (mn c) 0)) as Habs.
+  unfold coo_append. rewrite setZ_okA by (unfold cap in *; clear - Hi Habs Hic; lia). cbn [bind].
+  set (c1 := {| buf := upd (buf c) (Z.to_nat (ind c)) ev; ind := ind c + 1; mn := mn c; depth := depth c |}).
+  assert (L1 : live c1 = live c ++ [ev]) by (apply live_append; clear - Hi Habs Hic; lia).
+  assert (I1 : Inv Q c1 (4 * (F + 1))).
+  { split; [constructor; simpl; auto; try (clear - Hi; lia)|split; [exact C|exact D]].
+    - rewrite L1. apply keys_nonneg_app. split; [exact Hk|]. constructor; [exact Hev|constructor].
+    - intros j Hj. unfold run_at; simpl.
+      assert (Z.abs (nthZ (mn c) j) <= Z.abs (nthZ (mn c) 0)) by (apply (chain_le (mn c) 0 (depth c)); [exact Hch|lia]).
+      rewrite (slice_prefix_eq _ (buf c) _ _ (ind c)); [apply Hruns; exact Hj|apply Z.abs_nonneg|lia|apply firstn_upd]. }
+  assert (V1 : VInv Q limit c1 F (E + 1)).
+  { split; [exact I1|]. split; [exact HF|]. unfold c1; cbn [ind mn]. clear - HP. lia. }
+  assert (K1 : cap c1 = cap c) by (unfold cap, c1; simpl; apply zlen_upd).
+  assert (S1 : forall k, sumby (live c1) k = sumby (live c) k + sumby [ev] k)
+    by (intros k; rewrite L1; apply sumby_app).
+  assert (Z1 : zlen (mn c1) = zlen (mn c)) by reflexivity.
+  assert (J1 : ind c1 = ind c + 1) by reflexivity.
+  assert (UN : unmerged_needs limit c1 -> unmerged_needs limit c).
+  { intros H W NW IW. rewrite <- K1. apply H; [exact NW|]. intros k Hkk. rewrite L1, keys_app. apply in_or_app. left. apply IW, Hkk. }
+  rewrite (getZ_nthZ _ (mn c1) 0) by (simpl; clear - Hd; lia). cbn [bind].
+  clearbody c1.
+  destruct (ind c1 - Z.abs (nthZ (mn c1) 0) >=? limit) eqn:T0.
+  - rewrite Z.geb_leb in T0. apply Z.leb_le in T0.
+    destruct (flush_tail_k limit c1 F (E + 1)) as (c2 & F' & E2 & V2 & J2 & C2 & U2 & KK & FF & GG);
+      [exact Hl|exact V1|rewrite K1, J1; clear - Hic; lia|rewrite K1; exact Hcap|rewrite Z1; exact HG|left; exact T0|].
+    rewrite E2. cbn [bind].
+    replace (ind c2 =? cap c2 - 1) with false by (symmetry; apply Z.eqb_neq; clear - J2; lia).
+    exists c2, F'. split; [reflexivity|]. split; [exact V2|]. split; [exact J2|]. split; [exact C2|].
+    split; [intros k; rewrite U2; apply S1|]. split; [rewrite <- L1; exact KK|].
+    split; [destruct FF as [FF|[FF1 FF2]]; [left; exact FF|right; split; [exact FF1|apply UN, FF2]]|].
+    unfold grown_exact in *. rewrite K1, Z1 in GG. exact GG.
+  - cbn [bind]. destruct (ind c1 =? cap c1 - 1) eqn:T.
+    + apply Z.eqb_eq in T.
+      destruct (flush_tail_k limit c1 F (E + 1)) as (c2 & F' & E2 & V2 & J2 & C2 & U2 & KK & FF & GG);
+        [exact Hl|exact V1|rewrite K1, J1; clear - Hic; lia|rewrite K1; exact Hcap|rewrite Z1; exact HG|right; exact T|].
+      exists c2, F'. split; [exact E2|]. split; [exact V2|]. split; [exact J2|]. split; [exact C2|].
+      split; [intros k; rewrite U2; apply S1|]. split; [rewrite <- L1; exact KK|].
+      split; [destruct FF as [FF|[FF1 FF2]]; [left; exact FF|right; split; [exact FF1|apply UN, FF2]]|].
+      unfold grown_exact in *. rewrite K1, Z1 in GG. exact GG.
+    + apply Z.eqb_neq in T. exists c1, F. split; [reflexivity|]. split; [exact V1|].
+      rewrite K1 in T. unfold grown_exact. rewrite K1. split; [clear - T J1 Hic; lia|]. split; [exact Hcap|]. split; [exact S1|].
+      split; [rewrite L1; apply same_keys_refl|].
+      split; [left; reflexivity|]. left. split; [reflexivity|exact Z1].
+Qed.
+
+End Driver.
